@@ -1,105 +1,167 @@
 ----------------------------- MODULE Broadcaster -----------------------------
 (* Implementation-shaped model of events/broadcaster/broadcaster.go.          *)
 (*   lock: b.lock      closeCh: closed or not      eventChs: registered subs  *)
-(*   per subscriber: buf (cap B), closeEv (closeEventCh closed), ctx, the     *)
-(*   forwarder goroutine's pc and the value in its hand, the reader's kind.   *)
+(*   per subscriber: the internal id (currentID, assigned in lock order), buf *)
+(*   (cap B), closeEv (closeEventCh closed), ctx, the forwarder goroutine's   *)
+(*   pc and the value in its hand, the reader (kind, rdy: waiting on its      *)
+(*   channel).                                                                *)
 (* Broadcast holds the lock across its (possibly blocking) sends - that is    *)
 (* the point of the model.                                                    *)
+(* Clients run operations: in the exhaustive configurations they come from    *)
+(* the constant Progs (Start), in trace validation from the recorded call     *)
+(* events (Begin) - the operation in progress is cop[c].                      *)
 EXTENDS Integers, Sequences, FiniteSets, TLC
 
-CONSTANTS NSubs, Kinds,     \* Kinds[s] \in {"prompt", "stalled"}
+CONSTANTS NSubs,            \* subscribers are numbered 1..NSubs by their callers
           B,                \* buffer capacity (10 in the code)
-          BProgs,           \* BProgs[p]: number of Broadcast calls of broadcaster p
+          Progs,            \* Progs[c]: the operations of client c: [op |-> "sub", s, kind] | [op |-> "bc"] | [op |-> "close"]
           CloseFix          \* TRUE: Close signals closeCh before taking the lock (repaired code)
 
 Subs == 1..NSubs
-BPs == 1..Len(BProgs)
+Clients == 1..Len(Progs)
 
-VARIABLES lock,             \* 0 = free, p = held by broadcaster p across its sends
-          closeCh, closed, wg, eventChs,
-          sst,              \* subscriber: "unsub" | "active"
+VARIABLES lock,             \* 0 = free, c = held by client c's Broadcast across its sends
+          closeCh, closed, wg, eventChs, nextId,
+          sst,              \* subscriber: "unsub" | "active" | "dropped"
+          sid,              \* its internal id (-1: none)
+          kind,             \* its reader: "prompt" (always takes) | "stalled" (never) | "gated" (takes when rdy)
+          rdy,              \* the reader is waiting on its channel
           buf, closeEv, ctxDone, fpc, hand, recvd,
-          bpc, bidx, bval, bleft, nextV, order,
-          cpc               \* closer: "idle" | "signalled" | "locked" | "wait" | "done"
-vars == <<lock, closeCh, closed, wg, eventChs, sst, buf, closeEv, ctxDone, fpc, hand, recvd, bpc, bidx, bval, bleft, nextV, order, cpc>>
+          cpc, cip, cop,    \* client: pc within the current op, index of the current op, the op in progress
+          bidx,             \* Broadcast of client c: position in eventChs
+          nextV, order,     \* order: the values in the order in which their Broadcasts took the lock
+          closeRet          \* some Close call has returned
+vars == <<lock, closeCh, closed, wg, eventChs, nextId, sst, sid, kind, rdy, buf, closeEv, ctxDone, fpc, hand, recvd,
+          cpc, cip, cop, bidx, nextV, order, closeRet>>
 
-Init == /\ lock = 0 /\ closeCh = FALSE /\ closed = FALSE /\ wg = 0 /\ eventChs = <<>>
-        /\ sst = [s \in Subs |-> "unsub"] /\ buf = [s \in Subs |-> <<>>] /\ closeEv = [s \in Subs |-> FALSE]
+NoOp == [op |-> "none", s |-> 0, kind |-> "", v |-> 0]
+CurOp(c) == Progs[c][cip[c]]
+HasOp(c) == cip[c] <= Len(Progs[c])
+
+Init == /\ lock = 0 /\ closeCh = FALSE /\ closed = FALSE /\ wg = 0 /\ eventChs = <<>> /\ nextId = 0
+        /\ sst = [s \in Subs |-> "unsub"] /\ sid = [s \in Subs |-> -1] /\ kind = [s \in Subs |-> "stalled"]
+        /\ rdy = [s \in Subs |-> FALSE]
+        /\ buf = [s \in Subs |-> <<>>] /\ closeEv = [s \in Subs |-> FALSE]
         /\ ctxDone = [s \in Subs |-> FALSE] /\ fpc = [s \in Subs |-> "none"] /\ hand = [s \in Subs |-> 0]
         /\ recvd = [s \in Subs |-> <<>>]
-        /\ bpc = [p \in BPs |-> "idle"] /\ bidx = [p \in BPs |-> 0] /\ bval = [p \in BPs |-> 0] /\ bleft = [p \in BPs |-> BProgs[p]]
-        /\ nextV = 1 /\ order = <<>> /\ cpc = "idle"
+        /\ cpc = [c \in Clients |-> "idle"] /\ cip = [c \in Clients |-> 1] /\ cop = [c \in Clients |-> NoOp]
+        /\ bidx = [c \in Clients |-> 0]
+        /\ nextV = 1 /\ order = <<>> /\ closeRet = FALSE
 
 Remove(seq, x) == SelectSeq(seq, LAMBDA y : y # x)
 
-(* Subscribe - broadcaster.go:49-98 (its critical section never blocks: one step) *)
-Subscribe(s) == /\ sst[s] = "unsub" /\ lock = 0
-                /\ IF closed THEN UNCHANGED <<eventChs, wg, fpc>> /\ sst' = [sst EXCEPT ![s] = "dropped"]
-                             ELSE /\ eventChs' = Append(eventChs, s) /\ wg' = wg + 1
-                                  /\ fpc' = [fpc EXCEPT ![s] = "wait"] /\ sst' = [sst EXCEPT ![s] = "active"]
-                /\ UNCHANGED <<lock, closeCh, closed, buf, closeEv, ctxDone, hand, recvd, bpc, bidx, bval, bleft, nextV, order, cpc>>
-Cancel(s) == /\ sst[s] = "active" /\ ~ctxDone[s] /\ ctxDone' = [ctxDone EXCEPT ![s] = TRUE]
-             /\ UNCHANGED <<lock, closeCh, closed, wg, eventChs, sst, buf, closeEv, fpc, hand, recvd, bpc, bidx, bval, bleft, nextV, order, cpc>>
+(* ---- clients: the call ---- *)
+Begin(c, o) == /\ cpc[c] = "idle"
+               /\ cop' = [cop EXCEPT ![c] = o]
+               /\ cpc' = [cpc EXCEPT ![c] = o.op]
+               /\ IF o.op = "sub" THEN /\ kind' = [kind EXCEPT ![o.s] = o.kind]
+                                       /\ rdy' = [rdy EXCEPT ![o.s] = @ \/ o.kind = "prompt"]
+                                  ELSE UNCHANGED <<kind, rdy>>
+               /\ UNCHANGED <<lock, closeCh, closed, wg, eventChs, nextId, sst, sid, buf, closeEv, ctxDone, fpc, hand, recvd,
+                              cip, bidx, order, closeRet>>
+Start(c) == /\ HasOp(c)
+            /\ LET o == CurOp(c) IN
+               /\ Begin(c, [op |-> o.op, s |-> IF o.op = "sub" THEN o.s ELSE 0, kind |-> IF o.op = "sub" THEN o.kind ELSE "",
+                            v |-> IF o.op = "bc" THEN nextV ELSE 0])
+               /\ nextV' = IF o.op = "bc" THEN nextV + 1 ELSE nextV
+Finish(c) == /\ cpc' = [cpc EXCEPT ![c] = "idle"] /\ cip' = [cip EXCEPT ![c] = @ + 1] /\ cop' = [cop EXCEPT ![c] = NoOp]
 
-(* forwarder goroutine - broadcaster.go:67-97 *)
+(* Subscribe - broadcaster.go:49-98 (its critical section never blocks: one step) *)
+Subscribe(c) == /\ cpc[c] = "sub" /\ lock = 0
+                /\ LET s == cop[c].s IN
+                   IF closed THEN /\ sst' = [sst EXCEPT ![s] = "dropped"] /\ UNCHANGED <<eventChs, wg, fpc, sid, nextId>>
+                             ELSE /\ eventChs' = Append(eventChs, s) /\ wg' = wg + 1
+                                  /\ sid' = [sid EXCEPT ![s] = nextId] /\ nextId' = nextId + 1
+                                  /\ fpc' = [fpc EXCEPT ![s] = "wait"] /\ sst' = [sst EXCEPT ![s] = "active"]
+                /\ Finish(c)
+                /\ UNCHANGED <<lock, closeCh, closed, kind, rdy, buf, closeEv, ctxDone, hand, recvd, bidx, nextV, order, closeRet>>
+(* the subscriber's context ends: possible as soon as its Subscribe call was issued *)
+Cancel(s) == /\ ctxDone' = [ctxDone EXCEPT ![s] = TRUE]
+             /\ UNCHANGED <<lock, closeCh, closed, wg, eventChs, nextId, sst, sid, kind, rdy, buf, closeEv, fpc, hand, recvd,
+                            cpc, cip, cop, bidx, nextV, order, closeRet>>
+(* a gated reader starts waiting on its channel *)
+RWait(s) == /\ rdy' = [rdy EXCEPT ![s] = TRUE]
+            /\ UNCHANGED <<lock, closeCh, closed, wg, eventChs, nextId, sst, sid, kind, buf, closeEv, ctxDone, fpc, hand, recvd,
+                           cpc, cip, cop, bidx, nextV, order, closeRet>>
+
+(* forwarder goroutine - broadcaster.go:67-97; Go's select takes any ready arm *)
 FwdWait(s) == /\ fpc[s] = "wait"
               /\ \/ (ctxDone[s] \/ closeCh) /\ fpc' = [fpc EXCEPT ![s] = "exit"] /\ UNCHANGED <<buf, hand>>
                  \/ buf[s] # <<>> /\ hand' = [hand EXCEPT ![s] = Head(buf[s])] /\ buf' = [buf EXCEPT ![s] = Tail(@)]
                     /\ fpc' = [fpc EXCEPT ![s] = "got"]
-              /\ UNCHANGED <<lock, closeCh, closed, wg, eventChs, sst, closeEv, ctxDone, recvd, bpc, bidx, bval, bleft, nextV, order, cpc>>
+              /\ UNCHANGED <<lock, closeCh, closed, wg, eventChs, nextId, sst, sid, kind, rdy, closeEv, ctxDone, recvd,
+                             cpc, cip, cop, bidx, nextV, order, closeRet>>
 FwdGot(s) == /\ fpc[s] = "got"
-             /\ \/ (ctxDone[s] \/ closeCh) /\ fpc' = [fpc EXCEPT ![s] = "exit"] /\ UNCHANGED recvd
-                \/ Kinds[s] = "prompt" /\ recvd' = [recvd EXCEPT ![s] = Append(@, hand[s])] /\ fpc' = [fpc EXCEPT ![s] = "wait"]
-             /\ UNCHANGED <<lock, closeCh, closed, wg, eventChs, sst, buf, closeEv, ctxDone, hand, bpc, bidx, bval, bleft, nextV, order, cpc>>
+             /\ \/ (ctxDone[s] \/ closeCh) /\ fpc' = [fpc EXCEPT ![s] = "exit"] /\ UNCHANGED <<recvd, rdy>>
+                \/ /\ rdy[s] /\ recvd' = [recvd EXCEPT ![s] = Append(@, hand[s])] /\ fpc' = [fpc EXCEPT ![s] = "wait"]
+                   /\ rdy' = [rdy EXCEPT ![s] = (kind[s] = "prompt")]
+             /\ UNCHANGED <<lock, closeCh, closed, wg, eventChs, nextId, sst, sid, kind, buf, closeEv, ctxDone, hand,
+                            cpc, cip, cop, bidx, nextV, order, closeRet>>
 FwdExit(s) == /\ fpc[s] = "exit" /\ closeEv' = [closeEv EXCEPT ![s] = TRUE] /\ fpc' = [fpc EXCEPT ![s] = "unreg"]     \* :69 close(closeEventCh)
-              /\ UNCHANGED <<lock, closeCh, closed, wg, eventChs, sst, buf, ctxDone, hand, recvd, bpc, bidx, bval, bleft, nextV, order, cpc>>
+              /\ UNCHANGED <<lock, closeCh, closed, wg, eventChs, nextId, sst, sid, kind, rdy, buf, ctxDone, hand, recvd,
+                             cpc, cip, cop, bidx, nextV, order, closeRet>>
 FwdUnreg(s) == /\ fpc[s] = "unreg" /\ lock = 0                                                                   \* :71-79
                /\ eventChs' = Remove(eventChs, s) /\ wg' = wg - 1 /\ fpc' = [fpc EXCEPT ![s] = "done"]
-               /\ UNCHANGED <<lock, closeCh, closed, sst, buf, closeEv, ctxDone, hand, recvd, bpc, bidx, bval, bleft, nextV, order, cpc>>
+               /\ UNCHANGED <<lock, closeCh, closed, nextId, sst, sid, kind, rdy, buf, closeEv, ctxDone, hand, recvd,
+                              cpc, cip, cop, bidx, nextV, order, closeRet>>
 
 (* Broadcast - broadcaster.go:101-115 *)
-BStart(p) == /\ bpc[p] = "idle" /\ bleft[p] > 0 /\ lock = 0
-             /\ IF closed THEN /\ bleft' = [bleft EXCEPT ![p] = @ - 1] /\ UNCHANGED <<lock, bpc, bidx, bval, nextV, order>>
-                          ELSE /\ lock' = p /\ bpc' = [bpc EXCEPT ![p] = "loop"] /\ bidx' = [bidx EXCEPT ![p] = 1]
-                               /\ bval' = [bval EXCEPT ![p] = nextV] /\ nextV' = nextV + 1 /\ order' = Append(order, nextV)
-                               /\ UNCHANGED bleft
-             /\ UNCHANGED <<closeCh, closed, wg, eventChs, sst, buf, closeEv, ctxDone, fpc, hand, recvd, cpc>>
-BSend(p) == /\ bpc[p] = "loop" /\ bidx[p] <= Len(eventChs)
-            /\ LET s == eventChs[bidx[p]] IN
+BStart(c) == /\ cpc[c] = "bc" /\ lock = 0
+             /\ IF closed THEN /\ Finish(c) /\ UNCHANGED <<lock, bidx, order>>
+                          ELSE /\ lock' = c /\ cpc' = [cpc EXCEPT ![c] = "loop"] /\ bidx' = [bidx EXCEPT ![c] = 1]
+                               /\ order' = Append(order, cop[c].v)
+                               /\ UNCHANGED <<cip, cop>>
+             /\ UNCHANGED <<closeCh, closed, wg, eventChs, nextId, sst, sid, kind, rdy, buf, closeEv, ctxDone, fpc, hand, recvd,
+                            nextV, closeRet>>
+BSend(c) == /\ cpc[c] = "loop" /\ bidx[c] <= Len(eventChs)
+            /\ LET s == eventChs[bidx[c]] IN
                \/ closeEv[s] /\ UNCHANGED buf                         \* case <-ev.closeEventCh
                \/ closeCh /\ UNCHANGED buf                            \* case <-b.closeCh
-               \/ Len(buf[s]) < B /\ buf' = [buf EXCEPT ![s] = Append(@, bval[p])]   \* case ev.ch <- value
-            /\ bidx' = [bidx EXCEPT ![p] = @ + 1]
-            /\ UNCHANGED <<lock, closeCh, closed, wg, eventChs, sst, closeEv, ctxDone, fpc, hand, recvd, bpc, bval, bleft, nextV, order, cpc>>
-BEnd(p) == /\ bpc[p] = "loop" /\ bidx[p] > Len(eventChs)
-           /\ lock' = 0 /\ bpc' = [bpc EXCEPT ![p] = "idle"] /\ bleft' = [bleft EXCEPT ![p] = @ - 1]
-           /\ UNCHANGED <<closeCh, closed, wg, eventChs, sst, buf, closeEv, ctxDone, fpc, hand, recvd, bidx, bval, nextV, order, cpc>>
+               \/ Len(buf[s]) < B /\ buf' = [buf EXCEPT ![s] = Append(@, cop[c].v)]   \* case ev.ch <- value
+            /\ bidx' = [bidx EXCEPT ![c] = @ + 1]
+            /\ UNCHANGED <<lock, closeCh, closed, wg, eventChs, nextId, sst, sid, kind, rdy, closeEv, ctxDone, fpc, hand, recvd,
+                           cpc, cip, cop, nextV, order, closeRet>>
+BEnd(c) == /\ cpc[c] = "loop" /\ bidx[c] > Len(eventChs)
+           /\ lock' = 0 /\ Finish(c)
+           /\ UNCHANGED <<closeCh, closed, wg, eventChs, nextId, sst, sid, kind, rdy, buf, closeEv, ctxDone, fpc, hand, recvd,
+                          bidx, nextV, order, closeRet>>
 
-(* Close - broadcaster.go:119-126 *)
-CloseSignalFirst == /\ CloseFix /\ cpc = "idle" /\ closed' = TRUE /\ closeCh' = TRUE /\ cpc' = "signalled"
-                    /\ UNCHANGED <<lock, wg, eventChs, sst, buf, closeEv, ctxDone, fpc, hand, recvd, bpc, bidx, bval, bleft, nextV, order>>
-CloseLockFixed == /\ CloseFix /\ cpc = "signalled" /\ lock = 0 /\ cpc' = "wait"      \* Lock(); Unlock()
-                  /\ UNCHANGED <<lock, closeCh, closed, wg, eventChs, sst, buf, closeEv, ctxDone, fpc, hand, recvd, bpc, bidx, bval, bleft, nextV, order>>
-CloseLockOrig == /\ ~CloseFix /\ cpc = "idle" /\ lock = 0 /\ closed' = TRUE /\ closeCh' = TRUE /\ cpc' = "wait"
-                 /\ UNCHANGED <<lock, wg, eventChs, sst, buf, closeEv, ctxDone, fpc, hand, recvd, bpc, bidx, bval, bleft, nextV, order>>
-CloseWait == /\ cpc = "wait" /\ wg = 0 /\ cpc' = "done"
-             /\ UNCHANGED <<lock, closeCh, closed, wg, eventChs, sst, buf, closeEv, ctxDone, fpc, hand, recvd, bpc, bidx, bval, bleft, nextV, order>>
+(* Close - broadcaster.go:119-131 *)
+CloseCAS(c) == /\ CloseFix /\ cpc[c] = "close" /\ closed' = TRUE /\ closeCh' = TRUE      \* CompareAndSwap + close(closeCh), no lock
+               /\ cpc' = [cpc EXCEPT ![c] = "clock"]
+               /\ UNCHANGED <<lock, wg, eventChs, nextId, sst, sid, kind, rdy, buf, closeEv, ctxDone, fpc, hand, recvd,
+                              cip, cop, bidx, nextV, order, closeRet>>
+CloseLockFixed(c) == /\ CloseFix /\ cpc[c] = "clock" /\ lock = 0 /\ cpc' = [cpc EXCEPT ![c] = "cwait"]      \* Lock(); Unlock()
+                     /\ UNCHANGED <<lock, closeCh, closed, wg, eventChs, nextId, sst, sid, kind, rdy, buf, closeEv, ctxDone, fpc, hand,
+                                    recvd, cip, cop, bidx, nextV, order, closeRet>>
+CloseLockOrig(c) == /\ ~CloseFix /\ cpc[c] = "close" /\ lock = 0 /\ closed' = TRUE /\ closeCh' = TRUE
+                    /\ cpc' = [cpc EXCEPT ![c] = "cwait"]
+                    /\ UNCHANGED <<lock, wg, eventChs, nextId, sst, sid, kind, rdy, buf, closeEv, ctxDone, fpc, hand, recvd,
+                                   cip, cop, bidx, nextV, order, closeRet>>
+CloseWait(c) == /\ cpc[c] = "cwait" /\ wg = 0 /\ Finish(c) /\ closeRet' = TRUE
+                /\ UNCHANGED <<lock, closeCh, closed, wg, eventChs, nextId, sst, sid, kind, rdy, buf, closeEv, ctxDone, fpc, hand, recvd,
+                               bidx, nextV, order>>
 
-Internal == \/ \E s \in Subs : FwdWait(s) \/ FwdGot(s) \/ FwdExit(s) \/ FwdUnreg(s)
-            \/ \E p \in BPs : BStart(p) \/ BSend(p) \/ BEnd(p)
-            \/ CloseSignalFirst \/ CloseLockFixed \/ CloseLockOrig \/ CloseWait
-Env == \E s \in Subs : Subscribe(s) \/ Cancel(s)
-Next == Internal \/ Env
+FwdStep == \E s \in Subs : FwdWait(s) \/ FwdGot(s) \/ FwdExit(s) \/ FwdUnreg(s)
+OpStep(c) == Subscribe(c) \/ BStart(c) \/ BSend(c) \/ BEnd(c) \/ CloseCAS(c) \/ CloseLockFixed(c) \/ CloseLockOrig(c) \/ CloseWait(c)
+Internal == FwdStep \/ \E c \in Clients : Start(c) \/ OpStep(c)
+(* the environment: a subscriber's context may end any time after its Subscribe was called; gated readers take when they like *)
+Env == \E s \in Subs : \/ (sst[s] = "active" \/ \E c \in Clients : cop[c].op = "sub" /\ cop[c].s = s) /\ ~ctxDone[s] /\ Cancel(s)
+                       \/ kind[s] = "gated" /\ ~rdy[s] /\ RWait(s)
+(* Begin only touches the caller's own state: a call that starts as soon as the previous one returned loses no behaviour, *)
+(* and the exhaustive configurations save the states in which a caller sits between two calls.                           *)
+Eager == \E c \in Clients : cpc[c] = "idle" /\ HasOp(c)
+Next == IF Eager THEN \E c \in Clients : Start(c) ELSE Internal \/ Env
 (* fairness: every goroutine of the component and every caller keeps going; Close is eventually called *)
-Spec == Init /\ [][Next]_vars /\ WF_vars(Internal) /\ \A s \in Subs : WF_vars(Subscribe(s))
+Spec == Init /\ [][Next]_vars /\ WF_vars(Internal)
 
 (* ---- properties ---- *)
 IsSubseq(a, b) == \E f \in [1..Len(a) -> 1..Len(b)] : (\A i \in 1..Len(a) : b[f[i]] = a[i]) /\ (\A i, j \in 1..Len(a) : i < j => f[i] < f[j])
 (* one common order that respects the order of the Broadcast calls; nobody gets a value twice *)
 CommonOrder == \A s \in Subs : IsSubseq(recvd[s], order)
 (* nothing is delivered after Close returned *)
-QuietAfterClose == [][cpc = "done" => recvd' = recvd]_vars
+QuietAfterClose == [][closeRet => recvd' = recvd]_vars
 (* Close always returns; every Broadcast returns once Close was called (it is, eventually) *)
-CloseReturns == <>(cpc = "done")
-BroadcastsReturn == <>(\A p \in BPs : bleft[p] = 0)
+CloseReturns == <>closeRet
+BroadcastsReturn == <>(\A c \in Clients : ~HasOp(c) /\ cpc[c] = "idle")
 =============================================================================
